@@ -334,6 +334,9 @@ def run_round(ctx, FST, rnd, root, donor_root, label, round_no, hseed=None):
     try:
         out = root.reconcile()
     except Exception as e:
+        if touched & foreign:
+            ctx.violation('mutation-inside-node-of-another-fst-tree-raises', f'round {round_no} kinds={kinds}: a node taken from another FST tree was itself modified (e.g. a statement moved into its body) and reconcile() raised {type(e).__name__}: {short(str(e), 100)}', case)
+            return None
         ctx.violation(f'reconcile-raised:{type(e).__name__}', f'round {round_no} kinds={kinds}: {type(e).__name__}: {short(str(e), 160)}; marked src={short(marked_src, 200)!r}', case)
         return None
     ctx.count('rounds_judged')
